@@ -55,6 +55,7 @@ struct GuardrailSetting {
 };
 """
 
+BEACON_CONFIG_START = b"\x00\x01\x00\x01\x00\x02"
 BEACON_CONFIG_PATCH_SIZE = 6144
 GUARD_PATCH_SIZE = 2048
 
@@ -227,7 +228,9 @@ def unmask_beacon_config(grconfig: GuardrailMetadata) -> GuardrailMetadata:
         checksum = payload_checksum(unguarded) + 1
         log.debug("payload checksum: 0x%08x for xorkey: %r", checksum, xorkey)
 
-        if grconfig.checksum == checksum:
+        # a beacon config starts with its SETTING_PROTOCOL header, anything else that happens to have the right
+        # checksum (it is a simple one, and attacker controlled data can carry its own) is no beacon config
+        if grconfig.checksum == checksum and unguarded.startswith(BEACON_CONFIG_START):
             log.info("Found guardrail payload xorkey: %r", xorkey)
             grconfig.payload_xor_key = xorkey
             grconfig.unmasked_beacon_config = unguarded
